@@ -168,7 +168,25 @@ func c16Reject(c *Ctx) {
 	for _, e := range es {
 		esc, path := reg.From(Pt{e.To, 0}).Escape(func(it Item) bool {
 			cc, ok := callCommon(it)
-			return ok && p.CalleeName(cc) == "asyncProducer.returnError" && sameValue(cc.Args[1], msg) && tooLarge(cc.Args[2])
+			if !ok || p.CalleeName(cc) != "asyncProducer.returnError" || !sameValue(cc.Args[1], msg) {
+				return false
+			}
+			if tooLarge(cc.Args[2]) {
+				return true
+			}
+			// the verdict of a validation helper merged into one error variable: the value that flows in from this
+			// branch is ErrMessageSizeTooLarge
+			if ph, isPhi := strip(throughCell(cc.Args[2])).(*ssa.Phi); isPhi {
+				for i, ed := range ph.Edges {
+					if i < len(ph.Block().Preds) && tooLarge(ed) {
+						pr := ph.Block().Preds[i]
+						if pr == e.To || e.To.Dominates(pr) {
+							return true
+						}
+					}
+				}
+			}
+			return false
 		})
 		c.Check(!esc, rule, fn, "reject", lastInstr(e.From), "oversized message failed with ErrMessageSizeTooLarge", "an oversized message is not failed with ErrMessageSizeTooLarge on every path", path)
 	}
